@@ -230,7 +230,15 @@ func (t *tr) expr(e ast.Expr) string {
 				return t.rnd(e, "(("+a+" : ℤ) : ℝ)")
 			case isInt(dst) && isFloat(src):
 				return "(Go.f2i " + a + ")"
-			case isInt(dst) && isInt(src), isFloat(dst) && isFloat(src):
+			case isFloat(dst) && isFloat(src):
+				// float64(x) of a float32 is exact; float32(x) of a float64 rounds to 24 bits and is NOT the identity
+				if db, ok := dst.Underlying().(*types.Basic); ok && db.Kind() == types.Float32 {
+					if sb, ok := src.Underlying().(*types.Basic); ok && sb.Kind() != types.Float32 {
+						return t.fail(e, "narrowing conversion %s -> %s", src, dst)
+					}
+				}
+				return a
+			case isInt(dst) && isInt(src):
 				return a
 			}
 			return t.fail(e, "conversion %s -> %s", src, dst)
